@@ -241,7 +241,7 @@ func (p *Program) verifyFunction(name string) (enc *Enc, err error) {
 		if _, ok := con.Checks["frame"]; ok {
 			locs, _, aerr := p.assignLocs(con, fn.Signature)
 			if aerr != nil {
-				return nil, fmt.Errorf("%s: %v", name, aerr)
+				return nil, fmt.Errorf("%s: contract error: %v", name, aerr)
 			}
 			f.installFrameChecks(locs, alloc0)
 		}
